@@ -95,7 +95,7 @@ func (ev *Evidence) finish(st *SolverStats, validated, violations, unconfirmed i
 	c.EngineErrors = engineErrors
 	c.Solver = map[string]interface{}{"queries": st.Queries, "sat": st.Sat, "unsat": st.Unsat, "unknown": st.Unknown,
 		"cache_hits": st.CacheHits, "settled_by_model_evaluation": st.ModelHits, "solver_seconds": float64(st.Nanos) / 1e9, "answered_by": st.ByBackend,
-		"encoding": "exact integer encoding of wrapping machine words (primary), bit-vector/FloatingPoint fallback", "per_query_limit_s": queryTO.Seconds()}
+		"encoding": "exact integer encoding of wrapping machine words (primary), bit-vector/FloatingPoint fallback", "per_query_limit_s": queryTO.Seconds(), "obligation_retry_limit_s": 5 * queryTO.Seconds()}
 	c.Explanation = fmt.Sprintf("bounded symbolic execution of the real functions (go/ssa of /repo's working tree): states = completed paths, transitions = forks + path ends; every obligation is the SMT query path-condition AND NOT assertion; %d/%d came back unsat.", c.Discharged, c.Obligations)
 	if len(c.Samples) == 0 {
 		c.Samples = append(c.Samples, "no obligation reached")
